@@ -909,7 +909,8 @@ for top in ("EMPTY", "DEF_ARRAY", "INDEF_ARRAY", "MAP", "TAG", "BYTESTRING", "ST
       replace=["_cbor_builder_append__child", "_cbor_safe_to_multiply", "cbor_tag_set_item",
                "cbor_decref/cbor_decref__owned", "_cbor_stack_pop"],
       must_exist=[r"_cbor_builder_append\.postcondition\.5"] if top not in ("DEF_ARRAY", "INDEF_ARRAY", "MAP") else [r"_cbor_stack_pop\.precondition\.\d+"],
-      min_covers=1, cost=120, timeout=900, object_bits=10, mem_gb=20, replay="load_oracle", tag_alias=DECODE_ALIAS,
+      min_covers=1, cost=120, timeout=1500 if top == "MAP" else 900, object_bits=10, mem_gb=20, replay="load_oracle", tag_alias=DECODE_ALIAS,
+      expect_gb=12 if top == "MAP" else 2,
       **(dict(kind="bounded", bound=MAP_BOUND) if bounded else {}))
 
 # builder callbacks: one push-down-automaton transition per head kind; any stack depth, any kind of open item
@@ -1007,7 +1008,8 @@ for top, cov in (("EMPTY", 1), ("DEF_ARRAY", 1), ("INDEF_ARRAY", 1), ("MAP", 2),
 for nm, d, fn in (("cont_map_add_key_lemma", "H_MAP_ADD_KEY", "_cbor_map_add_key"), ("cont_map_add_lemma", "H_MAP_ADD", "cbor_map_add")):
     P(name=nm, tier="thorough", props={"C12": SAFETY, "C04": [], "C06": SAFETY, "C20": [], "C13": [], "C01": SAFETY}, lib=ITEMLIB,
       stubs=ITEM_STUBS + ["stubs/decref_ghost.c"], contracts=CONT_CONTRACTS, harness="harness/ops.c", defines=[d, "MAP_LEMMA"],
-      enforce=None, also_verified=[fn, "_cbor_map_add_value"], replace=["_cbor_safe_to_multiply"], min_covers=7, cost=200, timeout=900, mem_gb=24)
+      enforce=None, also_verified=[fn, "_cbor_map_add_value"], replace=["_cbor_safe_to_multiply"], min_covers=7, cost=200, timeout=1800, mem_gb=24,
+      expect_gb=24)
 
 # cbor_load: goto-instrument 6.11 runs out of memory on ANY loop contract for cbor_load (do-while with gotos to a label
 # behind the loop), so both loops are unwound: BOUNDED stand-in - runs of at most 3 heads, failing at depth <= 3.  Because
@@ -1042,18 +1044,18 @@ P(name="ser_map_lemma", props={"C03": ["loop"], "C07": ["loop"], "C18": [], "C01
   defines=["SER_KIND_MAP", "SER_FN=cbor_serialize_map", "VERIF_FIXED_NODES", "SER_LEMMA"], enforce=None,
   also_verified=["cbor_serialize_map"], twins=SER_TWINS, replace=list(SER_TWINS.values()) + ENC_ALL,
   loops="loops/serialization.json", loop_fingerprint={"cbor_serialize_map": 1},
-  must_exist=[r"cbor_serialize_map\.loop_invariant_step\.\d+"], min_covers=4, cost=200, timeout=900, object_bits=10, mem_gb=20)
+  must_exist=[r"cbor_serialize_map\.loop_invariant_step\.\d+"], min_covers=4, cost=200, timeout=1800, object_bits=10, mem_gb=20)
 
 # cbor_decref on a map, lemma style: loop contract over the pair storage + harness assertions, frame not enforced
 P(name="decref_map_lemma", tier="thorough", props={"C04": ["loop"], "C13": [], "C01": SAFETY + ["loop"], "C06": []},
   lib=ITEMLIB, stubs=ITEM_STUBS + ["stubs/decref_ghost.c"], contracts=DECREF_CONTRACTS, harness="harness/decref.c",
   defines=["KIND_MAP", "VERIF_FIXED_NODES"], enforce=None, also_verified=["cbor_decref"], twins={"cbor_decref": "cbor_decref__child"},
   replace=["cbor_decref__child"], loops="loops/decref.json", loop_fingerprint={"cbor_decref": 4},
-  must_exist=[r"cbor_decref\.loop_invariant_step\.\d+"], min_covers=2, cost=200, timeout=2400, object_bits=10, mem_gb=24)
+  must_exist=[r"cbor_decref\.loop_invariant_step\.\d+"], min_covers=2, cost=200, timeout=2400, object_bits=10, mem_gb=24, expect_gb=16)
 
 # quick-tier stand-in for the proof above (which needs 13 min / 15 GB and lives in the thorough tier): same harness and loop
 # contract, maps of at most 2 pairs
-P(name="decref_map_lemma_bounded", kind="bounded", bound="maps with at most 2 pairs (capacity <= 2)", props={"C04": ["loop"], "C01": SAFETY + ["loop"]},
+P(tier="experimental", name="decref_map_lemma_bounded", kind="bounded", bound="maps with at most 2 pairs (capacity <= 2)", props={"C04": ["loop"], "C01": SAFETY + ["loop"]},
   lib=ITEMLIB, stubs=ITEM_STUBS + ["stubs/decref_ghost.c"], contracts=DECREF_CONTRACTS, harness="harness/decref.c",
   defines=["KIND_MAP", "VERIF_FIXED_NODES", "MAP_BOUND=2", "VERIF_MAP_CAP=2"], enforce=None, also_verified=["cbor_decref"],
   twins={"cbor_decref": "cbor_decref__child"}, replace=["cbor_decref__child"], loops="loops/decref.json", loop_fingerprint={"cbor_decref": 4},
